@@ -2,6 +2,7 @@ package c19
 
 import (
 	"fmt"
+	"slices"
 	"sync"
 	"time"
 
@@ -11,17 +12,24 @@ import (
 // netCfg is the fault configuration of the simulated network for one step of
 // a phase.
 type netCfg struct {
-	Kind      string        `json:"kind"`
-	Loss      int           `json:"loss_pct"`
-	Dup       int           `json:"dup_pct"`
-	MaxDelay  time.Duration `json:"max_delay_ns"`
-	Group     []int         `json:"partition_group,omitempty"` // nodes talk only inside their group
-	Cut       []bool        `json:"cut,omitempty"`             // silent: nothing in, nothing out
-	Mute      []bool        `json:"mute,omitempty"`            // hears, but nothing it sends arrives
-	Deaf      []bool        `json:"deaf,omitempty"`            // speaks, but receives nothing
-	Late      []bool        `json:"late,omitempty"`            // everything it sends is late by LateBy
-	LateBy    time.Duration `json:"late_by_ns,omitempty"`
-	Quorumless bool         `json:"quorumless,omitempty"` // no group can reach M: progress is not expected
+	Kind       string        `json:"kind"`
+	Loss       int           `json:"loss_pct"`
+	Dup        int           `json:"dup_pct"`
+	MaxDelay   time.Duration `json:"max_delay_ns"`
+	Group      []int         `json:"partition_group,omitempty"` // nodes talk only inside their group
+	Cut        []bool        `json:"cut,omitempty"`             // silent: nothing in, nothing out
+	Mute       []bool        `json:"mute,omitempty"`            // hears, but nothing it sends arrives
+	Deaf       []bool        `json:"deaf,omitempty"`            // speaks, but receives nothing
+	Late       []bool        `json:"late,omitempty"`            // everything it sends is late by LateBy
+	LateBy     time.Duration `json:"late_by_ns,omitempty"`
+	Quorumless bool          `json:"quorumless,omitempty"` // no group can reach M: progress is not expected
+	// targeted loss: payloads of the listed types are dropped with TypeLoss
+	// percent unless the receiver is favoured (so that the favoured nodes
+	// commit while the others time out and change view)
+	TypeLoss  int      `json:"type_loss_pct,omitempty"`
+	LossView  int      `json:"loss_view"` // only payloads of this view are affected
+	LossTypes []string `json:"loss_types,omitempty"`
+	Favoured  []bool   `json:"favoured,omitempty"`
 }
 
 func quietCfg(n int) netCfg { return netCfg{Kind: "quiet"} }
@@ -72,6 +80,9 @@ func (c netCfg) summary() string {
 	}
 	if x := idx(c.Late); x != nil {
 		s += fmt.Sprintf(" late=%v by %s", x, c.LateBy)
+	}
+	if c.TypeLoss > 0 {
+		s += fmt.Sprintf(" %d%% of view-%d %v lost unless receiver in %v", c.TypeLoss, c.LossView, c.LossTypes, idx(c.Favoured))
 	}
 	return s
 }
@@ -127,7 +138,7 @@ func (n *simnet) snapshot() map[string]int64 {
 }
 
 // send hands one message to the network. fn runs at the receiver.
-func (n *simnet) send(from, to int, kind string, fn func()) {
+func (n *simnet) send(from, to int, kind, sub string, view int, fn func()) {
 	n.mu.Lock()
 	if n.closed {
 		n.mu.Unlock()
@@ -147,6 +158,11 @@ func (n *simnet) send(from, to int, kind string, fn func()) {
 	}
 	if c.Loss > 0 && n.r.Intn(100) < c.Loss {
 		n.counters["dropped_loss"]++
+		n.mu.Unlock()
+		return
+	}
+	if c.TypeLoss > 0 && sub != "" && view == c.LossView && !c.flag(c.Favoured, to) && slices.Contains(c.LossTypes, sub) && n.r.Intn(100) < c.TypeLoss {
+		n.counters["dropped_targeted"]++
 		n.mu.Unlock()
 		return
 	}
@@ -226,7 +242,7 @@ func (n *simnet) close(timeout time.Duration) bool {
 // are still behind the highest ledger; together with the nodes the step
 // silences or delays they must not exceed f (partitions are exempt: they are
 // allowed to stop progress, never to break safety).
-func genStep(r *rng.R, n, f int, bt time.Duration, lagging []bool, allowPartition bool) netCfg {
+func genStep(r *rng.R, n, f int, bt time.Duration, lagging, isVal []bool, allowPartition bool, force string) netCfg {
 	nLag := 0
 	for _, l := range lagging {
 		if l {
@@ -261,12 +277,15 @@ func genStep(r *rng.R, n, f int, bt time.Duration, lagging []bool, allowPartitio
 		return false
 	}
 	c := netCfg{}
-	kinds := []string{"lossy", "cut", "mute", "deaf", "late", "mixed", "partition", "dup-reorder"}
-	w := []int{3, 3, 2, 2, 3, 4, 3, 2}
+	kinds := []string{"lossy", "cut", "mute", "deaf", "late", "mixed", "partition", "dup-reorder", "commit-split"}
+	w := []int{3, 3, 2, 2, 3, 4, 3, 2, 4}
 	if !allowPartition {
 		w[6] = 0
 	}
 	c.Kind = kinds[r.Weighted(w)]
+	if force != "" {
+		c.Kind = force
+	}
 	switch c.Kind {
 	case "lossy":
 		c.Loss = 8 + r.Intn(25)
@@ -309,25 +328,53 @@ func genStep(r *rng.R, n, f int, bt time.Duration, lagging []bool, allowPartitio
 				}
 			}
 		}
-	case "partition":
-		m := n - f
-		var sizes []int
-		if n == 4 {
-			sizes = [][]int{{3, 1}, {2, 2}, {2, 1, 1}, {3, 1}}[r.Intn(4)]
-		} else {
-			sizes = [][]int{{5, 2}, {4, 3}, {3, 3, 1}, {4, 2, 1}, {5, 1, 1}, {6, 1}}[r.Intn(6)]
-		}
-		c.Group = make([]int, n)
-		perm := r.Perm(n)
-		k := 0
-		c.Quorumless = true
-		for g, s := range sizes {
-			if s >= m {
-				c.Quorumless = false
+	case "commit-split":
+		c.Favoured = make([]bool, n)
+		k := 1 + r.Intn(f)
+		for _, i := range r.Perm(n) {
+			if k > 0 && isVal[i] && !lagging[i] {
+				c.Favoured[i] = true
+				k--
 			}
-			for i := 0; i < s; i++ {
-				c.Group[perm[k]] = g
-				k++
+		}
+		// up to f validators see every view-0 preparation and commit at view 0;
+		// the others lose the view-0 prepare responses (and the recovery
+		// messages that would replay them), time out, change view and finish
+		// the block at a later view, with the stale commits still in their context
+		c.TypeLoss = 85 + r.Intn(16)
+		c.LossTypes = []string{"PrepareResponse", "RecoveryMessage"}
+		c.LossView = 0
+		c.MaxDelay = bt * time.Duration(r.Intn(30)) / 100
+	case "partition":
+		nVal := 0
+		for _, v := range isVal {
+			if v {
+				nVal++
+			}
+		}
+		m := nVal - (nVal-1)/3
+		groups := 2 + r.Intn(2)
+		c.Group = make([]int, n)
+		for {
+			seen := map[int]bool{}
+			for i := range c.Group {
+				c.Group[i] = r.Intn(groups)
+				seen[c.Group[i]] = true
+			}
+			if len(seen) >= 2 {
+				break
+			}
+		}
+		c.Quorumless = true
+		for g := 0; g < groups; g++ {
+			k := 0
+			for i := range c.Group {
+				if c.Group[i] == g && isVal[i] {
+					k++
+				}
+			}
+			if k >= m {
+				c.Quorumless = false
 			}
 		}
 		c.Loss = r.Intn(10)
